@@ -41,6 +41,15 @@ Decided (DESIGN.md section 5, C09):
 Findings on the pristine tree (genuine, see KNOWN): X2 for Bzip2Decompressor (F5a), X1/X2/N1 for both buffer decompressors (F5b),
 and N1 for Bzip2Decompressor on the path that has just reopened the handle for the next stream.
 
+Normal form.  The path rules (S1, N1, X1-X4, K1, K2, T1, T2) do not look at read() / close() / run_in_thread as written but at
+c09_util.normalized(): helpers of the same class called on `this` and free io-layer helpers that contain one of the library calls
+are inlined into the caller's CFG (reference parameters substituted, value parameters and the result become initialised locals,
+inlined nodes lie inside the tries around the call site), a `switch` over constants is lowered to the equivalent chain of `==`
+tests, and a branch on a once-initialised local (`const bool failed = r != OK && r != END; if (failed)`) reads the initialiser.
+E1 runs on the un-inlined bodies (switch / named conditions normalised); a failure value that leaves an extracted helper through
+a reference parameter or its result is decided in the normal form of every caller instead.  So extract-helper, loop-form
+(while / for(;;) / early return), switch-vs-if and named-local rewrites leave instances, keys and verdicts unchanged.
+
 Limits of what is decided (a miss is preferred to a false alarm): N1 accepts a path as soon as it passes a branch whose condition
 reads the byte count (count variable, next_out / avail_out, size()/empty() of the returned string) -- the direction of that test is
 not examined; locals initialised once are looked through (`const auto n = ...; resize(n)`, `const bool more = unused != 0`), tests or
@@ -57,7 +66,7 @@ from ..c08_util import in_io_layer
 from ..c09_util import (DECOMP, RTM, OPEN_CLOSE, dedupe, decompressor_classes, read_path_functions, method_of, pull_calls,
                         call_name, assume, walk_from, returned_local, stream_field, count_resizes, count_test_elements,
                         unconsumed_zero_guard, guard_signature, end_declarations, string_call_on, STRING_MUTATORS, addr_carrier,
-                        field_assigned_from, data_sources, handle_arg_is, helper_reaches, catch_all_handler, nodes_in_handler, must_pass, is_exit, scn, reaches,
+                        field_assigned_from, data_sources, handle_arg_is, helper_reaches, normalized, catch_all_handler, nodes_in_handler, must_pass, is_exit, scn, reaches,
                         assigned_from)
 from ..flow import path_search, describe_path
 
@@ -118,10 +127,69 @@ ASSUMPTIONS = ['status / count conventions of gzread, read, BZ2_bzRead, inflate,
 
 # ------------------------------------------------------------------------------------------------ 1  ERRDISC
 
+def _handled_by_callers(fb, fn, call, conv, depth=0):
+    """The failure of `call` leaves helper fn through a reference parameter / the return value: decide the site where the helper is
+    used instead -- in the normal form (helper inlined) of every function that calls it."""
+    callers = [f for f in dedupe(fb.functions) if f.usr != fn.usr and any(c.get('u') == fn.usr for c in f.calls())]
+    if not callers or depth > 2:
+        return None
+    detail = []
+    for f in callers:
+        g = normalized(fb, f)
+        copies = [n for n in g.all_nodes() if n['id'] in getattr(g, 'origin', {}) and E.is_extern_c(n) and n.get('q') == call['q']
+                  and n.get('o') == call.get('o') and n.get('l') == call.get('l')]
+        if not copies:
+            return None     # a caller that is not inlined (other class, virtual ...): stay with the verdict of the helper itself
+        for c in copies:
+            verdict, msg, _o = E.check_site(fb, g, c, conv)
+            if verdict in ('dropped', 'returned') and g is not f:
+                # the value leaves this caller as well (a helper of a helper): decide it one level further up
+                if _handled_by_callers(fb, f, call, conv, depth + 1) is None:
+                    return None
+            elif verdict != 'ok':
+                return None
+        detail.append(f.q)
+    return 'failure leaves the helper through a parameter / its result and every caller (%s) ends in a throw' % ', '.join(sorted(set(detail)))
+
+
 def errdisc_rules(fb, R):
+    """E.run_sites with one refinement: a site whose failure value leaves an extracted helper is decided in its callers."""
     fns, _classes = read_path_functions(fb)
+    fns = [normalized(fb, f, inline=False) for f in fns]     # switch over the status = if-chain; named conditions looked through
+    rule, dtor_rule = 'E1-read-error-reaches-throw', 'E1-nothrow-explicit-discard'
     want = lambda name: E.classify(name)[0] != 'special'
-    return E.run_sites(R, fb, fns, 'E1-read-error-reaches-throw', 'E1-nothrow-explicit-discard', want=want, io_layer=in_io_layer)
+    seen = set()
+    for fn, call, cls, conv in E.sites(fb, fns, want):
+        k = (fn.pat, call.get('o'), call['q'])
+        if k in seen:
+            continue
+        seen.add(k)
+        name = call['q']
+        site = fn.loc(call['id'])
+        if cls == 'unknown':
+            if in_io_layer(fn):
+                R.broken('ERRDISC: extern "C" function %s called in %s (%s) has no entry in the convention table' % (name, fn.q, site))
+            continue
+        if cls != 'check':
+            continue
+        key = '%s#%s' % (fn.q, name)
+        if fn.kind == 'dtor' or fn.noexcept:
+            if E.explicit_discard(fn, call):
+                R.ok(dtor_rule, key, site, 'explicit (void) discard in a function that cannot throw')
+                continue
+            verdict, msg, _o = E.check_site(fb, fn, call, conv)
+            R.check(verdict == 'ok', dtor_rule, key, site,
+                    '%s in %s (cannot throw): result neither discarded with an explicit (void) nor handled: %s' % (name, fn.q, msg))
+            continue
+        verdict, msg, _o = E.check_site(fb, fn, call, conv)
+        if verdict in ('dropped', 'returned'):
+            alt = _handled_by_callers(fb, getattr(fn, 'base', fn), call, conv)
+            if alt is not None:
+                verdict, msg = 'ok', alt
+        if verdict == 'unknown':
+            R.broken('ERRDISC: %s in %s (%s): %s' % (name, fn.q, site, msg))
+            continue
+        R.check(verdict == 'ok', rule, key, site, msg, msg if verdict == 'ok' else None)
 
 
 # ------------------------------------------------------------------------------------------------ 2 / 3  read() overrides
@@ -145,6 +213,7 @@ def read_rules(fb, R):
             R.broken('%s: no read() override with a body found' % rec.q)
             continue
         for fn in reads:
+            fn = normalized(fb, fn)
             pcs = pull_calls(fb, fn)
             key = fn.q + '#pulls'
             if not pcs:
@@ -358,6 +427,7 @@ def close_rules(fb, R):
             R.broken('%s holds a library read handle but has no close() body' % rec.q)
             continue
         for fn in closes:
+            fn = normalized(fb, fn)
             for fq, opener in sorted(handles.items()):
                 fname = fq.rsplit('::', 1)[-1]
                 lib = [n for n in fn.all_nodes() if E.is_extern_c(n) and n['q'] in OPEN_CLOSE[opener] and handle_arg_is(fn, n, fq)]
@@ -388,6 +458,7 @@ def read_thread_rules(fb, R):
         R.broken('%s::run_in_thread not found' % RTM)
         return
     for fn in fns:
+        fn = normalized(fb, fn)
         reads = [n for n in fn.all_nodes() if n.get('k') == 'call' and n.get('q') == DECOMP + '::read']
         closes = [n for n in fn.all_nodes() if n.get('k') == 'call' and n.get('q') == DECOMP + '::close']
         if not reads:
@@ -497,7 +568,7 @@ def run(ctx):
 def _selftest(fb, R):
     from ..engine import AnalysisBroken
     fns = [f for f in fb.functions if f.q.startswith('osmium::')]
-    E.run_sites(R, fb, fns, 'E1-read-error-reaches-throw', 'E1-nothrow-explicit-discard', io_layer=lambda fn: True)
+    errdisc_rules(fb, R)
     read_rules(fb, R)
     close_rules(fb, R)
     read_thread_rules(fb, R)
@@ -509,6 +580,20 @@ def _selftest(fb, R):
             ('N1-no-empty-chunk-while-more', NS + 'GoodBzip2Decompressor::read#BZ2_bzRead:after-next-stream-started'),
             ('X2-end-only-when-input-consumed', NS + 'GoodBzip2Decompressor::read#end-declared@stream-end+unused-empty')]
     missing = [k for k in need if k not in R.instances or not R.instances[k].ok]
+    # the same rules through an extracted helper / switch / early return / named condition (normal form)
+    H = NS + 'BadHelperBzip2Decompressor::'
+    for (rule, key, want_ok) in (('X2-end-only-when-input-consumed', H + 'read#end-declared@stream-end+feof', False),
+                                 ('X2-end-only-when-input-consumed', H + 'read#end-declared@stream-end+not-feof+unused-empty', True),
+                                 ('N1-no-empty-chunk-while-more', H + 'read#BZ2_bzRead:after-next-stream-started', False),
+                                 ('X1-stream-end-continues', H + 'read#BZ2_bzRead:next-stream-started', True),
+                                 ('S1-chunk-length-is-library-count', H + 'read#BZ2_bzRead', True),
+                                 ('X3-unused-copied-before-close', H + 'read#unused-bytes-copied-before-close', True),
+                                 ('X4-reopen-receives-unused', H + 'read#reopen-gets-unused-bytes', True),
+                                 ('K1-close-closes-library-handle', H + 'close#closes-BZ2_bzReadOpen-handle', True),
+                                 ('K2-handle-reset-before-throw', H + 'close#m_bzfile-reset-after-BZ2_bzReadClose', True)):
+        i = R.instances.get((rule, key))
+        if i is None or i.ok is not want_ok:
+            missing.append((rule, key, 'expected %s' % ('ok' if want_ok else 'violated')))
     if wrong or missing or R.broken_msgs:
         raise AnalysisBroken('C09 self-test: conforming twins reported %s, expected-ok instances missing %s, broken %s'
                              % (wrong, missing, R.broken_msgs))
